@@ -102,8 +102,78 @@ def check(ctx):
     ctx.attempt(config_setters_keep_false, rule='COMMIT')
     ctx.attempt(_globals_inventory)
     ctx.attempt(parse_not_gated)
+    ctx.attempt(settings_are_inputs)
+    ctx.attempt(results_replaced_not_grown)
     ctx.attempt(forward.check_all, module_suffixes=('plssdesc.plssdesc', 'tract.tract', 'tract.tract_parse'))
     ctx.attempt(common.none_vs_false, [f for f in ctx.repo.funcs.values() if f.module.name.endswith('config.config')])
+
+
+def settings_are_inputs(ctx, rule='COMMIT'):
+    """parse() / preprocess() read the object's settings and never write them:
+    a call that stores one of the configurable attributes changes what every
+    later call (and a later bare parse()) starts from, so the object drifts
+    from a fresh one with the settings it was given."""
+    g = lambda a: set(ctx.fold.get_attr('config.config', 'Config', a))
+    tables = {'Tract': g('_TRACT_ATTRIBUTES'), 'PLSSDesc': g('_PLSSDESC_ATTRIBUTES') | g('_TRACT_ATTRIBUTES')}
+    n = 0
+    for spec in ('Tract.parse', 'Tract.preprocess', 'PLSSDesc.parse', 'PLSSDesc.preprocess', 'PLSSDesc.parse_tracts'):
+        try:
+            fi = ctx.repo.func(spec)
+        except AnalysisError:
+            continue
+        names = tables[spec.split('.')[0]]
+        n += 1
+        for st in walk_local(fi.node):
+            tgts = st.targets if isinstance(st, ast.Assign) else [st.target] if isinstance(st, (ast.AugAssign, ast.AnnAssign)) else []
+            for t in tgts:
+                for x in (t.elts if isinstance(t, (ast.Tuple, ast.List)) else [t]):
+                    if isinstance(x, ast.Attribute) and norm(x.value) == 'self' and x.attr in names:
+                        ctx.violation(rule, f"{spec} does not write the setting `{x.attr}`",
+                                      f"`{norm(st)[:70]}` stores a configurable setting during {spec.split('.')[1]}(): the value given "
+                                      f"for ONE call becomes the default of the following calls (parse(qq_depth=1) and then "
+                                      f"parse(qq_depth_min=3) meets a left-over qq_depth_max), unlike on a fresh object",
+                                      key=f"{rule}|{spec}|writes-setting|{x.attr}", where=common.loc(fi, st))
+            if isinstance(st, ast.Call) and dotted(st.func) == 'setattr' and len(st.args) == 3 and norm(st.args[0]) == 'self':
+                v = ctx.fold.eval(st.args[1], {}, fi.module.name)
+                if isinstance(v, str) and v in names:
+                    ctx.violation(rule, f"{spec} does not write the setting `{v}`", f"`{norm(st)[:70]}`",
+                                  key=f"{rule}|{spec}|writes-setting|{v}", where=common.loc(fi, st))
+        ctx.ok(rule, f"{spec} writes none of its {len(names)} settings")
+    ctx.floor('methods examined for writes to settings', n, 4)
+
+
+def results_replaced_not_grown(ctx, rule='COMMIT'):
+    """A committed call REPLACES the result lists (flags, flag lines, tracts,
+    lots, qqs); growing one in place (`self.w_flags.append(...)`) makes every
+    repetition of the call add to what is already there."""
+    from ..srcmodel import facts_at
+    results = {'w_flags', 'e_flags', 'w_flag_lines', 'e_flag_lines', 'tracts', 'lots', 'qqs', 'lots_qqs', 'lot_acres'}
+    n = 0
+    for spec in ('Tract.parse', 'Tract.preprocess', 'PLSSDesc.parse', 'PLSSDesc.preprocess', 'PLSSDesc.parse_tracts'):
+        try:
+            fi = ctx.repo.func(spec)
+        except AnalysisError:
+            continue
+        n += 1
+        for c in walk_local(fi.node):
+            a = None
+            if isinstance(c, ast.Call) and isinstance(c.func, ast.Attribute) and c.func.attr in ('append', 'extend', 'insert', 'update') \
+                    and isinstance(c.func.value, ast.Attribute) and norm(c.func.value.value) == 'self':
+                a = c.func.value.attr
+            elif isinstance(c, ast.AugAssign) and isinstance(c.target, ast.Attribute) and norm(c.target.value) == 'self':
+                a = c.target.attr
+            if a not in results:
+                continue
+            # fine if the same function rebinds the list before (on the way to) this statement
+            rebound = any(isinstance(s_, ast.Assign) and any(norm(t) == f"self.{a}" for t in s_.targets) and s_.lineno < c.lineno
+                          for s_ in walk_local(fi.node))
+            ctx.check(rebound, rule, f"{spec}: self.{a} is replaced, not grown",
+                      detail_bad=f"`{norm(c)[:70]}` adds to the list the object already has: each repetition of the call "
+                                 f"(e.g. every committed preprocess / parse of an already parsed object) adds another copy, "
+                                 f"so the object differs from a freshly created one", key=f"{rule}|{spec}|grows|{a}",
+                      where=common.loc(fi, c))
+        ctx.ok(rule, f"{spec} grows none of the result lists in place")
+    ctx.floor('methods examined for in-place growth of results', n, 4)
 
 
 def parse_not_gated(ctx, rule='FRESH'):
@@ -137,7 +207,41 @@ def seed_guard(ctx, seeded=None):
                 if isinstance(n, ast.Assign) and norm(n.targets[0]).startswith('self.') and any(
                         norm(x).startswith('parent.') for x in ast.walk(n.value) if isinstance(x, ast.Attribute)):
                     seeded[norm(n.targets[0])[5:]] = (norm(n.value), None, n, m)
-        if not seeded:
+                elif isinstance(n, ast.Assign) and norm(n.targets[0]).startswith('self.') and m.node.name != '__init__' and any(
+                        isinstance(x, ast.Attribute) and isinstance(x.value, ast.Name) and x.value.id in m.params()
+                        and x.value.id != 'self' and x.attr == norm(n.targets[0])[5:] for x in ast.walk(n.value)):
+                    # a helper that copies the same-named attribute from the object it is given;
+                    # counts when __init__ hands it the parent
+                    init_ = ci.methods.get('__init__')
+                    if init_ is not None and any(isinstance(c, ast.Call) and norm(c.func) == f"self.{m.node.name}" and any(
+                            norm(a) in ('parent', 'self.parent') for a in c.args) for c in walk_local(init_.node)):
+                        call_ = next(c for c in walk_local(init_.node) if isinstance(c, ast.Call) and norm(c.func) == f"self.{m.node.name}")
+                        seeded[norm(n.targets[0])[5:]] = (norm(n.value), None, call_, init_)
+        # what a committed Tract.parse() replaces on the tract by the parser's lists
+        unpack = ctx.fold.get_attr('tract_parse', 'TractParser', 'UNPACKABLES')
+        tp = ctx.repo.func('Tract.parse')
+        by_table = any(isinstance(n, ast.For) and 'UNPACKABLES' in norm(n.iter) and any(
+            isinstance(c, ast.Call) and dotted(c.func) == 'setattr' for c in ast.walk(n)) for n in walk_local(tp.node))
+        replaced = {a for a in ('w_flags', 'e_flags', 'w_flag_lines', 'e_flag_lines')
+                    if (by_table and a in (unpack or ())) or any(
+                        isinstance(n, ast.Assign) and norm(n.targets[0]) == f"self.{a}" and norm(n.value) == f"parser.{a}"
+                        for n in walk_local(tp.node))}
+        lost = sorted(replaced - set(seeded))
+        # any other way the parent's flags could be read (setattr loop over a table of names)?
+        indirect = any(isinstance(c, ast.Call) and dotted(c.func) == 'getattr' and c.args
+                       and norm(c.args[0]) in ('parent', 'self.parent') for m in ci.methods.values() for c in ast.walk(m.node))
+        if lost and indirect:
+            ctx.undecided('COMMIT', 'TractParser takes over the flags of its parent',
+                          'the parent is read through getattr(parent, <name>): which attributes are taken over is not decided')
+        elif lost:
+            ctx.violation('COMMIT', 'TractParser takes over the flags of its parent',
+                          f"a committed Tract.parse() replaces self.{', self.'.join(lost)} by the parser's list"
+                          f"{'s' if len(lost) > 1 else ''}, and TractParser no longer starts "
+                          f"{'them' if len(lost) > 1 else 'it'} from the tract's existing flags: every flag handed down by the "
+                          f"description (PLSSParser.hand_down_flags) disappears from a tract that is parsed again "
+                          f"(parse_tracts(), Tract.parse())", key=f"COMMIT|TractParser|seed-missing|{','.join(lost)}",
+                          where=ci.methods['__init__'].loc if '__init__' in ci.methods else None)
+        elif not seeded:
             ctx.undecided('COMMIT', 'TractParser takes over the flags of its parent', 'no seeding statement recognised')
     # the hand-over from the parent is conditioned on there being a parent, not
     # on the parent's state (a re-parsed tract still carries the flags its
